@@ -31,7 +31,7 @@ func c17model(c *Ctx) {
 		c.Unk("C17.R1", "encoding/wkt#model", token.NoPos, "geometry types do not resolve")
 		return
 	}
-	m.it.maxDepth = 12
+	m.it.maxDepth = 48
 	var fmtCalls []c17fmtCall
 	m.it.stub = func(f *types.Func, recv oval, args []oval) ([]oval, bool) {
 		switch {
